@@ -6,6 +6,7 @@ import BoltonsVerif.C10.Plain
 import BoltonsVerif.C10.Round
 import BoltonsVerif.C10.Pure
 import BoltonsVerif.C10.Inf
+import BoltonsVerif.C10.Compact
 /-
 C10 — property theorems (statements + short derivations from Proofs/Queue/Backends.lean)
 and non-vacuity examples.
@@ -302,6 +303,135 @@ theorem peek_agrees_with_pop {β : Type} {B : Backend T β} {wf : β → Prop}
   rw [nextOut_eq_spec L, nextOut_eq_spec L]
   simp only [Spec.step]
   cases best (live ops) <;> rfl
+
+/-- the `default` argument plays no role unless the queue is empty - whichever object it is, in particular
+    when it IS (or equals) the head task itself (`pop(None)` on a queue holding the task `None`): `pop(d)`
+    returns what `pop()` returns and leaves exactly the live tasks `pop()` leaves, so the head task is
+    gone afterwards; on an empty queue both leave it empty -/
+theorem pop_removes_head_whatever_the_default {β : Type} {B : Backend T β} {wf : β → Prop}
+    {content : β → List (Entry T)} (L : Lawful B wf content) (ops : List (Op T)) (d : Option Nat) :
+    live (ops ++ [.pop d]) = live (ops ++ [.pop none]) ∧
+    (live ops ≠ [] → nextOut B ops (.pop d) = nextOut B ops (.pop none) ∧
+      (live (ops ++ [.pop d])).length + 1 = (live ops).length ∧
+      ∀ t, nextOut B ops (.pop d) = .task t → t ∉ (live (ops ++ [.pop d])).map Prod.fst) := by
+  have happ : ∀ op : Op T, live (ops ++ [op]) = ((live ops).step op).1 := by
+    intro op
+    show (Spec.runFrom [] (ops ++ [op])).1 = _
+    rw [runFrom_append]
+    simp only [Spec.runFrom]
+    rfl
+  refine ⟨?_, fun hne => ?_⟩
+  · rw [happ, happ]
+    simp only [Spec.step]
+    cases best (live ops) <;> rfl
+  · rw [nextOut_eq_spec L, nextOut_eq_spec L, happ]
+    simp only [Spec.step]
+    cases hb : best (live ops) with
+    | none => exact absurd ((best_eq_none _).mp hb) hne
+    | some x =>
+      obtain ⟨pre, post, h1, _, _⟩ := best_decomp (live ops) x hb
+      have hnd := live_tasks_nodup ops
+      refine ⟨rfl, ?_, ?_⟩
+      · simp only []
+        rw [h1] at hnd ⊢
+        have hpre : ∀ y ∈ pre, y.1 ≠ x.1 := by
+          intro y hy he
+          rw [List.map_append, List.map_cons] at hnd
+          have := (List.nodup_append.mp hnd).2.2 y.1 (List.mem_map_of_mem hy) x.1 (by simp)
+          exact this he
+        have hpost : ∀ y ∈ post, y.1 ≠ x.1 := by
+          intro y hy he
+          rw [List.map_append, List.map_cons] at hnd
+          have h2 := (List.nodup_cons.mp (List.nodup_append.mp hnd).2.1).1
+          exact h2 (he ▸ List.mem_map_of_mem hy)
+        have e1 : pre.filter (taskNe x.1) = pre :=
+          List.filter_eq_self.mpr (fun y hy => by simp [taskNe, hpre y hy])
+        have e2 : post.filter (taskNe x.1) = post :=
+          List.filter_eq_self.mpr (fun y hy => by simp [taskNe, hpost y hy])
+        simp [List.filter_append, e1, e2, taskNe]
+        omega
+      · intro t ht
+        simp only [Out.task.injEq] at ht
+        subst ht
+        simp [List.mem_filter, taskNe]
+
+/-- superseded entries (tombstones) are unobservable: two queue states - even over two DIFFERENT lawful
+    backends - that satisfy the invariant and stand for the same live tasks return the same values for
+    every continuation, however many entries marked `_REMOVED` each of them still carries -/
+theorem backend_layout_is_unobservable {β β' : Type} {B : Backend T β} {wf : β → Prop}
+    {content : β → List (Entry T)} {B' : Backend T β'} {wf' : β' → Prop} {content' : β' → List (Entry T)}
+    (L : Lawful B wf content) (L' : Lawful B' wf' content') (s : PQ T β) (s' : PQ T β')
+    (hI : Inv wf content s) (hI' : Inv wf' content' s') (h : absSpec s' = absSpec s) (ops : List (Op T)) :
+    (PQ.runFrom B' s' ops).2 = (PQ.runFrom B s ops).2 :=
+  (layout_unobservable L L' s s' hI hI' h ops).1
+
+/-- after ANY history `ops1` (e.g. thousands of re-prioritisations of a bounded task set), replacing the
+    backend by one rebuilt from its live entries - taken in any order `es` - through the backend's own
+    `push` (`heappush` / `insort`) changes no return value of any continuation `ops2`, and the rebuilt
+    backend holds exactly the live entries.  (A clean-up is safe as long as it re-establishes the backend's
+    representation invariant; installing the filtered heap array as it is does not.) -/
+theorem compaction_is_unobservable {β : Type} {B : Backend T β} {wf : β → Prop}
+    {content : β → List (Entry T)} (L : Lawful B wf content) (ops1 ops2 : List (Op T)) (es : List (Entry T))
+    (hes : es.Perm (liveEntries (content (PQ.run B ops1).1.pq))) :
+    (PQ.runFrom B ((PQ.run B ops1).1.compact B es) ops2).2 = (PQ.runFrom B (PQ.run B ops1).1 ops2).2 ∧
+    (content ((PQ.run B ops1).1.compact B es).pq).Perm (liveEntries (content (PQ.run B ops1).1.pq)) ∧
+    (content ((PQ.run B ops1).1.compact B es).pq).length = (live ops1).length := by
+  obtain ⟨hI, habs, _⟩ := run_sim L ops1
+  obtain ⟨hI', _⟩ := compact_inv L _ hI es hes
+  refine ⟨compact_unobservable L _ hI es hes ops2, (rebuild_spec L es).2.trans hes, ?_⟩
+  -- the rebuilt backend has one entry per live task
+  have hlen : (content ((PQ.run B ops1).1.compact B es).pq).length = ((PQ.run B ops1).1.compact B es).emap.length := by
+    have hnd : (content ((PQ.run B ops1).1.compact B es).pq).Nodup := content_nodup _ hI'
+    have hall : ∀ e ∈ content ((PQ.run B ops1).1.compact B es).pq, e.task.isSome = true := by
+      intro e he
+      have := ((rebuild_spec L es).2.trans hes).mem_iff.mp he
+      exact ((mem_liveEntries _ e).mp this).2
+    -- entries <-> map items, both duplicate-free
+    let f : T × Int × Nat → Entry T := fun x => ⟨x.2.1, x.2.2, some x.1⟩
+    have hk : (((PQ.run B ops1).1.compact B es).emap).Pairwise (fun a b => a.1 ≠ b.1) := by
+      have := hI'.knodup
+      unfold List.Nodup at this
+      exact List.pairwise_map.mp this
+    have hfnd : ((((PQ.run B ops1).1.compact B es).emap).map f).Nodup := by
+      unfold List.Nodup
+      refine List.pairwise_map.mpr (hk.imp ?_)
+      intro a b h hab
+      simp only [f, Entry.mk.injEq, Option.some.injEq] at hab
+      exact h hab.2.2
+    have hperm : (content ((PQ.run B ops1).1.compact B es).pq).Perm ((((PQ.run B ops1).1.compact B es).emap).map f) := by
+      rw [List.perm_ext_iff_of_nodup hnd hfnd]
+      intro e
+      constructor
+      · intro he
+        obtain ⟨t, ht⟩ := Option.isSome_iff_exists.mp (hall e he)
+        have : (⟨e.prio, e.count, some t⟩ : Entry T) ∈ content ((PQ.run B ops1).1.compact B es).pq := by
+          have : (⟨e.prio, e.count, some t⟩ : Entry T) = e := by cases e; simp_all
+          rw [this]; exact he
+        have hm := (hI'.live t e.prio e.count).mpr this
+        refine List.mem_map.mpr ⟨(t, e.prio, e.count), hm, ?_⟩
+        cases e; simp_all [f]
+      · intro he
+        obtain ⟨x, hx, rfl⟩ := List.mem_map.mp he
+        exact (hI'.live x.1 x.2.1 x.2.2).mp hx
+    rw [hperm.length_eq, List.length_map]
+  rw [hlen]
+  have hl : live ops1 = absSpec (PQ.run B ops1).1 := habs.symm
+  rw [hl]
+  simp [absSpec, PQ.compact]
+
+/-- ... whereas installing the heap array with the tombstones merely FILTERED OUT (no re-heapify; the
+    seeded change C10-15) can be observed: kernel-checked record of a history after which the queue pops
+    task 3 (priority -5) although task 5 (priority -4) is live.  The heap `[1, 2†, 5, 10, 4, 20]`
+    (priorities negated, † = removed) becomes `[1, 5, 10, 4, 20]`, where 4 sits below 5 -/
+theorem unheapified_compaction_is_observable :
+    ∃ ops1 ops2 : List (Op Nat),
+      (PQ.runFrom binHeap (⟨liveEntries (PQ.run binHeap ops1).1.pq, (PQ.run binHeap ops1).1.emap,
+          (PQ.run binHeap ops1).1.counter⟩ : PQ Nat (List (Entry Nat))) ops2).2 = [.task 1, .task 3] ∧
+      (PQ.runFrom binHeap (PQ.run binHeap ops1).1 ops2).2 = [.task 1, .task 5] ∧
+      (PQ.runFrom binHeap ((PQ.run binHeap ops1).1.compact binHeap
+          (liveEntries (PQ.run binHeap ops1).1.pq)) ops2).2 = [.task 1, .task 5] :=
+  ⟨[.add 1 (-1), .add 2 (-2), .add 3 (-5), .add 4 (-10), .add 5 (-4), .add 6 (-20), .remove 2],
+   [.pop none, .pop none], by decide⟩
 
 /-- `peek` and `len` are pure observations although `peek` culls tombstones from the backend: deleting
     every `peek` / `len` call from a history changes neither the live tasks nor the return value of any
@@ -644,6 +774,9 @@ end D
 /-! ## non-vacuity: concrete histories (size limit 2 forces several sub-lists at once) -/
 section Examples
 
+/-- the content function of the heap backend (`heapq_lawful` is stated with `id`) -/
+abbrev content_id (l : List (Entry Nat)) : List (Entry Nat) := l
+
 def exOps : List (Op Nat) :=
   [.add 1 5, .add 2 5, .add 3 7, .add 4 1, .add 5 5, .add 1 5, .remove 4, .len,
    .peek none, .pop none, .pop none, .pop none, .pop none, .pop none, .pop (some 7), .remove 9]
@@ -744,6 +877,27 @@ example : HeapOrder (fun a b : Nat => decide (a < b)) :=
   ⟨fun a b h => by simp at h ⊢; omega, fun a b c h1 h2 => by simp at h1 h2 ⊢; omega⟩
 example : (PQ.run binHeap exOps).2 = (PQ.run (sortedBackend (fun _ => 2)) exOps).2 := by decide
 example : (PQ.run binHeap (exOps.take 6)).1.pq.length = 6 := by decide
+
+/-- `pop_removes_head_whatever_the_default`: task 7 heads the queue and default #1000007 (the driver's name
+    for "the task object 7 itself") is given: 7 is returned and gone, the next pop reaches task 8; on the
+    emptied queue that default comes back and is shown as the task object it is -/
+example : nextOut binHeap [.add 7 1, .add 8 0] (.pop (some (Driver.taskDefaultBase + 7))) = .task 7 ∧
+    live ([.add 7 1, .add 8 0] ++ [.pop (some (Driver.taskDefaultBase + 7))]) = [((8 : Nat), (0 : Int))] ∧
+    (PQ.run binHeap [.add 7 1, .add 8 0, .pop (some 1000007), .pop (some 1000007), .pop (some 1000007)]).2.map
+      Driver.showOut = ["-", "-", "t7", "t8", "t7"] := by decide
+
+/-- `compaction_is_unobservable`: after the first 7 calls of `exOps` (two superseded entries inside the heap:
+    the old entry of task 1 and the removed task 4) the heap holds 6 entries, 4 of them live; rebuilt from
+    the live ones in reverse order it holds 4, and the rest of the history returns the same values -/
+example : (content_id (PQ.run binHeap (exOps.take 7)).1.pq).length = 6 ∧
+    (liveEntries (content_id (PQ.run binHeap (exOps.take 7)).1.pq)).length = 4 ∧
+    (((PQ.run binHeap (exOps.take 7)).1.compact binHeap
+        (liveEntries (content_id (PQ.run binHeap (exOps.take 7)).1.pq)).reverse).pq).length = 4 ∧
+    (PQ.runFrom binHeap ((PQ.run binHeap (exOps.take 7)).1.compact binHeap
+        (liveEntries (content_id (PQ.run binHeap (exOps.take 7)).1.pq)).reverse) (exOps.drop 7)).2 =
+      (PQ.runFrom binHeap (PQ.run binHeap (exOps.take 7)).1 (exOps.drop 7)).2 ∧
+    (PQ.runFrom binHeap (PQ.run binHeap (exOps.take 7)).1 (exOps.drop 7)).2.take 4 =
+      [.len 4, .task 3, .task 3, .task 2] := by decide
 
 end Examples
 
